@@ -183,7 +183,7 @@ func (e *FEnc) instr(st *State, b *ssa.BasicBlock, idx int, in ssa.Instruction) 
 		e.havocHeap(st)
 		e.havocLeaked(st)
 	case *ssa.RunDefers:
-		if hasDefers(e.fn) {
+		if hasDefers(e.fn) && !e.defersKeepHeap() {
 			e.havocHeap(st)
 			e.havocLeaked(st)
 			e.publishExposed(st)
@@ -903,4 +903,18 @@ func (e *FEnc) unsupportedOnce(msg string) {
 		}
 	}
 	e.unsupported = append(e.unsupported, msg)
+}
+
+// defersKeepHeap: every deferred call of the function is pure or carries a "frame none" contract.
+func (e *FEnc) defersKeepHeap() bool {
+	for _, b := range e.fn.Blocks {
+		for _, in := range b.Instrs {
+			if d, ok := in.(*ssa.Defer); ok {
+				if !e.callKeepsHeap(&d.Call) {
+					return false
+				}
+			}
+		}
+	}
+	return true
 }
